@@ -10,5 +10,5 @@ func (S) M() *int { return nil }
 func F() int {
 	var i I = S{}
 	j := i.(J)
-	return *j.M() //KNOWN:F41-b1
+	return *j.M() //REPORT
 }
